@@ -92,7 +92,7 @@ Proof.
   destruct (has_prefix s_google_protobuf full); [exact I|].
   destruct (find_msg D full) as [m|] eqn:Ef; [|exact I].
   assert (Hm : In m (d_msgs D)) by (eapply find_msg_In; eauto).
-  destruct (lookup st (msg_key m)) eqn:El; cbn [obind]; [apply ext_refl|].
+  destruct (lookup st (msg_key m)) as [en|] eqn:El; [destruct (is_enum_entry en); cbn [obind]; [exact I|apply ext_refl]|cbn [obind]].
   assert (Hk : has_key st (msg_key m) = false) by (unfold has_key; rewrite El; reflexivity).
   assert (HU' : unvisited D ((msg_key m, Placeholder) :: st) < n)
     by (pose proof (unvisited_cons D st m Placeholder Hm Hk); lia).
